@@ -4,6 +4,7 @@ package main
 
 import (
 	"fmt"
+	"os"
 	"go/ast"
 	"go/token"
 	"go/types"
@@ -54,13 +55,28 @@ func (c *Ctx) mergeStates(states []*State) *State {
 	}
 	out := &State{assumes: base, vars: map[*types.Var]Value{}, heap: map[string]string{}, written: states[0].written, wvars: states[0].wvars,
 		defers: states[0].defers}
-	out.epochs = states[0].epochs
+	// epochs: keep the common prefix of the havoc history; every pattern havocked on only some of the paths gets a new
+	// epoch (its value differs between the paths), everything else keeps resolving lazily as before
+	common := len(states[0].epochs)
 	for _, st := range states[1:] {
-		if !sameEpochs(st.epochs, out.epochs) {
-			c.nfresh++
-			out.epochs = []epochMark{{"", c.nfresh}}
-			// keys untouched on all paths had arbitrary (havocked) values on at least one of them
-			break
+		n := 0
+		for n < common && n < len(st.epochs) && st.epochs[n] == states[0].epochs[n] {
+			n++
+		}
+		common = n
+	}
+	out.epochs = append([]epochMark(nil), states[0].epochs[:common]...)
+	seenPat := map[string]bool{}
+	for _, st := range states {
+		for _, m := range st.epochs[common:] {
+			if !seenPat[m.prefix] {
+				seenPat[m.prefix] = true
+				c.nfresh++
+				if os.Getenv("GOWP_DEBUG") != "" && c.dry == 0 {
+					fmt.Fprintf(os.Stderr, "merge restamp %q id=%d\n", m.prefix, c.nfresh)
+				}
+				out.epochs = append(out.epochs, epochMark{m.prefix, c.nfresh})
+			}
 		}
 	}
 	selv := c.fresh("sel", sInt)
@@ -272,8 +288,10 @@ func (c *Ctx) exec(st ast.Stmt, s *State) []Exit {
 		}
 		switch x.Tok {
 		case token.BREAK:
+			c.atClauses(s, fmt.Sprintf("break %d", c.branchOrd[x]), x.Pos())
 			return []Exit{{kind: xBreak, label: label, s: s}}
 		case token.CONTINUE:
+			c.atClauses(s, fmt.Sprintf("continue %d", c.branchOrd[x]), x.Pos())
 			return []Exit{{kind: xContinue, label: label, s: s}}
 		}
 	case *ast.SwitchStmt:
@@ -549,6 +567,24 @@ func (c *Ctx) discoverWrites(s *State, body func(s *State)) (map[*types.Var]bool
 	d := s.clone()
 	d.written = map[string]bool{}
 	d.wvars = map[*types.Var]bool{}
+	d.nonFresh = map[string]int{}
+	start := c.nfresh
+	defer func() {
+		// outer loops see the inner loop's writes too (with the allocation stamps of the written objects)
+		if s.nonFresh != nil {
+			for k, v := range d.nonFresh {
+				if old, ok := s.nonFresh[k]; !ok || v < old {
+					s.nonFresh[k] = v
+				}
+			}
+		}
+		c.lastNonFresh = map[string]bool{}
+		for k, v := range d.nonFresh {
+			if v <= start { // the object existed before this loop was entered
+				c.lastNonFresh[k] = true
+			}
+		}
+	}()
 	c.dry++
 	savedInline := len(c.inline)
 	func() {
@@ -589,8 +625,35 @@ func (c *Ctx) havocWrites(s *State, wv map[*types.Var]bool, wh map[string]bool) 
 			c.pendingHavoc(s, k[1:])
 		}
 	}
+	nonFresh := c.lastNonFresh
+	entryAlloc := c.heapGet(s, "X.alloc", sA1)
+	c.loopHavoc = true
+	defer func() { c.loopHavoc = false }()
 	for _, k := range ks {
 		if !strings.HasPrefix(k, "*") {
+			// objects that existed before the loop keep their contents if the loop writes this key only at objects it allocates
+			if k != "X.alloc" && (strings.HasPrefix(k, "F.") || strings.HasPrefix(k, "M.") || strings.HasPrefix(k, "D.") || strings.HasPrefix(k, "V.") || strings.HasPrefix(k, "C.")) {
+				hit := false
+				for b := range nonFresh {
+					if keyMatches(k, b) {
+						hit = true
+					}
+				}
+				if !hit {
+					oldT := c.heapGet(s, k, c.heapSort(k))
+					c.heapHavoc(s, k, c.heapSort(k))
+					newT := s.heap[k]
+					s.assume(fmt.Sprintf("(forall ((r Int)) (! (=> (= (select %s r) 1) (= (select %s r) (select %s r))) :pattern ((select %s r))))", entryAlloc, newT, oldT, newT))
+					continue
+				}
+			}
+			if k == "X.alloc" {
+				oldAl := c.heapGet(s, "X.alloc", sA1)
+				c.heapHavoc(s, k, sA1)
+				newAl := s.heap[k]
+				s.assume(fmt.Sprintf("(forall ((r Int)) (! (=> (= (select %s r) 1) (= (select %s r) 1)) :pattern ((select %s r))))", oldAl, newAl, oldAl))
+				continue
+			}
 			c.heapHavoc(s, k, c.heapSort(k))
 		}
 	}
@@ -600,6 +663,7 @@ func (c *Ctx) checkInvariants(s *State, li loopInfo, kind string, pos token.Pos)
 	if li.spec == nil {
 		return
 	}
+	c.curLoop = li.ord
 	for i, inv := range li.spec.Invariants {
 		g := c.cevalBool(inv.Expr, s, nil, pos)
 		c.oblige(s, fmt.Sprintf("%s:loop%d.%d", kind, li.ord, i+1), inv.Text, pos, g, inv.Tags)
@@ -610,6 +674,7 @@ func (c *Ctx) assumeInvariants(s *State, li loopInfo, pos token.Pos) {
 	if li.spec == nil {
 		return
 	}
+	c.curLoop = li.ord
 	for _, inv := range li.spec.Invariants {
 		s.assume(c.cevalBool(inv.Expr, s, nil, pos))
 	}
@@ -673,17 +738,35 @@ func (c *Ctx) loopCut(node ast.Stmt, pos token.Pos, s *State, li loopInfo, iter 
 	}
 	var out []Exit
 	var leave []*State
+	if li.spec != nil && len(li.spec.Steps) > 0 {
+		c.loopHeads[li.ord] = head.clone()
+	}
+	checkSteps := func(st *State, what string) {
+		if li.spec == nil {
+			return
+		}
+		c.curLoop = li.ord
+		for i, sc := range li.spec.Steps {
+			g := c.cevalBool(sc.Expr, st, nil, pos)
+			c.oblige(st, fmt.Sprintf("step-%s:loop%d.%d", what, li.ord, i+1), sc.Text, pos, g, sc.Tags)
+		}
+	}
 	for _, e := range iter(head) {
 		switch {
 		case e.kind == xFall || (e.kind == xContinue && (e.label == "" || e.label == li.label)):
+			checkSteps(e.s, "keep")
 			c.checkInvariants(e.s, li, "inv-keep", pos)
 			if variant0 != "" {
 				v1 := asInt(c.ceval(li.spec.Decreases.Expr, e.s, nil, pos))
 				c.oblige(e.s, fmt.Sprintf("dec:loop%d", li.ord), li.spec.Decreases.Text, pos, and(le("0", variant0), lt(v1, variant0)), li.spec.Decreases.Tags)
 			}
 		case e.kind == xBreak && (e.label == "" || e.label == "$cond" || e.label == li.label):
+			checkSteps(e.s, "exit")
 			leave = append(leave, e.s)
 		default:
+			if e.kind == xReturn {
+				checkSteps(e.s, "return")
+			}
 			out = append(out, e)
 		}
 	}
@@ -692,6 +775,7 @@ func (c *Ctx) loopCut(node ast.Stmt, pos token.Pos, s *State, li loopInfo, iter 
 		if after != nil {
 			if li.spec != nil {
 				for _, a := range li.spec.Asserts {
+					c.curLoop = li.ord
 					g := c.cevalBool(a.Expr, after, nil, pos)
 					c.oblige(after, fmt.Sprintf("exit-assert:loop%d", li.ord), a.Text, pos, g, a.Tags)
 					after.assume(g)
@@ -720,6 +804,7 @@ func (c *Ctx) execRange(x *ast.RangeStmt, s *State, label string) []Exit {
 		n := sv.Len
 		idxVar := c.eng.rangeIdxVar(x, keyVar)
 		s.vars[idxVar] = IntV{"0"}
+		c.loopIdxVar[ord] = idxVar
 		iter := func(st *State) []Exit {
 			var out []Exit
 			i := asInt(st.vars[idxVar])
